@@ -281,6 +281,9 @@ const CORPUS: &[&[&str]] = &[
     &["DEFCAL MEASURE!a 0:\n\tMEASURE!b 0", "DEFCAL MEASURE!b 0:\n\tMEASURE 0", "DEFCAL MEASURE 0:\n\tMEASURE!a 0", "MEASURE!b 0"],
     // the formal target has the name of a declared region; PRAGMA LOAD-MEMORY near misses
     &["DECLARE ro BIT[4]", "DEFCAL MEASURE q ro:\n\tCAPTURE q \"ro_rx\" flat(duration: 1, iq: 1) ro[1]\n\tPRAGMA LOAD-MEMORY \"ro\"\n\tPRAGMA load-memory \"ro\"\n\tPRAGMA LOAD-MEMORY \"ro[0]\"\n\tPRAGMA LOAD-MEMORY x \"ro\"", "MEASURE 1 other[1]\nMEASURE 2 ro[3]"],
+    // observation (docs/C17.md): a DEFWAVEFORM nests in a DEFCAL body (single-level indentation parses); its own
+    // formal parameter %a is substituted together with the calibration's %a (scope-blind, like the statement)
+    &["DEFCAL RX(%a) 0:\n\tDEFWAVEFORM w(%a):\n\t%a, 2*%a\n\tNOP", "RX(0.5) 0"],
     // nothing matches
     &["DEFCAL X 0:\n\tNOP", "Y 0\nMEASURE 0 ro[0]\nRESET\nX 1"],
     &["H 0\nCNOT 0 1"],
